@@ -77,7 +77,7 @@ def construction(report, db, cg, M, P):
                     'version goes through a helper that returns a '
                     'supported protocol number or raises ValueError')
     init = M.conn_method('__init__')
-    me = ('sym', init.params[0])
+    me = ('sym', init.all_params[0])
     # phase 1: what __init__ stores, with every call kept as a call (nothing
     # inlined): the validating helper is the function both inputs go through
     S0 = pathsum.PathSum(db, cg, max_depth=0, implicit_raises=False)
@@ -340,7 +340,7 @@ def shortcut(report, db, S, M, P):
                      'force before the handshake and before the reactor '
                      'builds its id table')
     fi = M.conn_method('connect')
-    me = sy(fi.params[0])
+    me = sy(fi.all_params[0])
     hs = M.conn_method('_handshake')
     consts = {'STATE_PLAYING': P.F.module_global(fi.module, 'STATE_PLAYING'),
               'STATE_STATUS': P.F.module_global(fi.module, 'STATE_STATUS')}
@@ -493,7 +493,7 @@ def status_evaluation(report, db, S, M, P):
     fi = db.own_method(psr, 'handle_status')
     if fi is None:
         raise AnalysisError('PlayingStatusReactor.handle_status vanished')
-    me, st = sy(fi.params[0]), sy(fi.params[1])
+    me, st = sy(fi.all_params[0]), sy(fi.all_params[1])
     vm = M.conn_method('_version_mismatch')
     hf = db.own_method(psr, 'handle_failure')
     hpv = db.own_method(psr, 'handle_proto_version')
@@ -610,7 +610,7 @@ def status_evaluation(report, db, S, M, P):
     okd = True
     for p in S.run(hf):
         cs = [e for e in p.calls() if e.calls(hpv)]
-        hme = sy(hf.params[0])
+        hme = sy(hf.all_params[0])
         if len(cs) != 1 or [struct(x) for x in cs[0].args
                             if struct(x) != hme] != [
                 at(hme, 'connection', 'default_proto_version')]:
@@ -622,7 +622,7 @@ def status_evaluation(report, db, S, M, P):
                          hf.qualname, 'the fallback does not use the '
                          'configured default version')
     # handle_proto_version narrows, then connects
-    pme, pv = sy(hpv.params[0]), sy(hpv.params[1])
+    pme, pv = sy(hpv.all_params[0]), sy(hpv.all_params[1])
     okn = True
     for p in S.run(hpv):
         evs = p.flat(('call', 'store'))
@@ -736,7 +736,7 @@ def plain_status(report, db, S, M, P, rule_id='R09.6', only=None):
                     'the lock')
     sr = db.get_class(CONN, 'StatusReactor')
     fi = db.own_method(sr, 'react')
-    me, pk = sy(fi.params[0]), sy(fi.params[1])
+    me, pk = sy(fi.all_params[0]), sy(fi.all_params[1])
     disconnect = M.conn_method('disconnect')
     paths = S.run(fi)
     arms = {}
@@ -853,7 +853,7 @@ def plain_status(report, db, S, M, P, rule_id='R09.6', only=None):
                   'packet.time) once, one clock')
     # status(): handler mapping, do_ping, lock
     sf = M.conn_method('status')
-    sme = sy(sf.params[0])
+    sme = sy(sf.all_params[0])
     table = {'handle_status': {}, 'handle_ping': {}}
     flag = set()
     locked = True
@@ -946,11 +946,11 @@ def lock_held(held, conn, M):
 
 def handshake_sources(report, db, S, M, P, R):
     hs = M.conn_method('_handshake')
-    me = sy(hs.params[0])
+    me = sy(hs.all_params[0])
     want = {'protocol_version': at(me, 'context', 'protocol_version'),
             'server_address': at(me, 'options', 'address'),
             'server_port': at(me, 'options', 'port'),
-            'next_state': sy(hs.params[1])}
+            'next_state': sy(hs.all_params[1])}
     n = 0
     for p in S.run(hs):
         for e, o, fields in shared.written_packets(p, P, db):
